@@ -857,7 +857,7 @@ fn main() {
             rep.sample(J::obj().set("level", J::s("sample")).set("case", J::s("u8 192 .add_amp(i8 -128)")).set("spec", J::s("to signed: 64; 64 + -128 = -64; back to u8: 64")).set("real", J::u(Sample::add_amp(192u8, -128) as u64)));
             rep.sample(J::obj().set("level", J::s("frame")).set("case", J::s("[I24; 7].zip_map(other, f) / from_samples(iter of 0..=9 items) / channel_mut(i) for i in 0..9")).set("spec", J::s("per-channel sample op in channel order; None iff fewer than 7 items, exactly 7 consumed on success")));
         }
-        "release" | "release_overflow_checks" => {
+        "release" | "release_overflow_checks" | "release_native_cpu" => {
             // the same sample-level and mono sweeps without debug assertions (the custom-width
             // types and every `+`/`-` in the conversions behave differently there)
             rep.oblige("sample_formats_checked", 14);
